@@ -951,6 +951,11 @@ func main() {
 		{"skel_paramMarshalJSON", "param", "MarshalJSON"},
 		{"skel_paramUnmarshalJSON", "param", "UnmarshalJSON"},
 		{"skel_doCall", "", "doCall"},
+		{"skel_WithReverseClient", "", "WithReverseClient"},
+		{"skel_ExtractReverseClient", "", "ExtractReverseClient"},
+		{"skel_handleWS", "RPCServer", "handleWS"},
+		{"skel_ServeHTTP", "RPCServer", "ServeHTTP"},
+		{"skel_websocketClient", "", "websocketClient"},
 	} {
 		f.defSkeleton(p, sk.name, sk.recv, sk.fn)
 	}
